@@ -75,6 +75,16 @@ def cases(tier, seed):
             for vs in itertools.product(["ok", "block"], repeat=k * turns):
                 i += 1
                 yield dict(_mk("v2", "v2", k, 1, turns, vs, cid="e%d" % i), id=i)
+    # the user repeats the very same text in every turn while the rails' verdicts differ per turn (all accept/reject matrices;
+    # resent message list, and for v1 also a fresh instance per turn is implied by the replays of C16)
+    for ver, modes in (("v1", ("dialog", "general", "passthrough", "single_call")), ("v2", ("v2",))):
+        for mode in modes:
+            for k in (1, 2):
+                for vs in itertools.product(["ok", "block"], repeat=k * 3):
+                    i += 1
+                    c = _mk(ver, mode, k, 1, 3, vs, cid="u%d" % i)
+                    c["same_user"] = True
+                    yield dict(c, id=i)
     # directed: conversation carried through the state object for >=3 turns, with and without rail exceptions,
     # earlier turns rejected at every rail position (found by the thorough tier: v1-state-api-history-truncated)
     for mode in ("passthrough", "general", "dialog"):
